@@ -1027,6 +1027,10 @@ def RecOp.toChangeRow (table : List Nat) (o : RecOp) : ChangeCodec.Row :=
     pred := o.pred.map (remapIdx table)
     expand := o.expand, markName := o.markName }
 
+/-- `start_op` of a rebuilt change: the counter of its first op (`max_op + 1` for a change without ops) -/
+def firstCtr (ops : List RecOp) (dflt : Nat) : Nat :=
+  match ops.head? with | some o => o.id.ctr | none => dflt
+
 /-- one rebuilt change, as `Change::decode` shows it, with its metadata -/
 def rebuildChange (actors : List Bytes) (built : List DChange) (c : ChangeMeta) (ops : List RecOp) : Outcome DErr DChange :=
   match actors[c.actor]? with
@@ -1040,7 +1044,7 @@ def rebuildChange (actors : List Bytes) (built : List DChange) (c : ChangeMeta) 
     let table := c.actor :: others
     let otherBytes := others.filterMap (fun i => actors[i]?)
     let deps := c.deps.filterMap (fun d => built[d]?.map (·.c.hash))
-    let startOp := match ops.head? with | some o => o.id.ctr | none => c.maxOp + 1
+    let startOp := firstCtr ops (c.maxOp + 1)
     let rows := ops.map (RecOp.toChangeRow table)
     let body := ChangeCodec.encodeBody deps author otherBytes c.seq startOp c.time c.message rows c.extra
     let hash := Chunk.chunkHash Consts.CHUNK_TYPE_CHANGE body
